@@ -47,7 +47,9 @@ ArrTags     == IntArrTags \cup ByteArrTags               \* the array wrapper ty
 \* included - written from a std::string ("bstr") or from its c_str() ("cstrb");
 \* "vbs" = std::vector<std::string>, "vvbs" = std::vector<std::vector<std::string>> of code lists
 StrTags     == {"str", "cstr", "bstr"}
-VsTags      == {"vs", "vbs"}
+\* "vcs" = a std::vector<const char*> (argv-style list; every element goes through the const char* overload:
+\* length, then strlen() bytes) - the same bytes as the std::vector<std::string> of the same strings, read back as one
+VsTags      == {"vs", "vbs", "vcs"}
 Tags        == PodTags \cup StrTags \cup VsTags \cup {"cstrb", "vvbs", "vi", "vvi", "raw"} \cup ArrTags \cup GenTags
 
 \* The two string overloads have different contracts and both are pinned:
